@@ -405,15 +405,16 @@ class HistGen:
         rng = self.rng
         caps = {c: 100 for c in EVENT_CATS}
         caps["txnev"] = 10000
-        dt = rng.random() < 0.85
+        decisive = self.profile == "bulkfail"     # every delivery of the split payload fails, past the attempt bound
+        dt = decisive or rng.random() < 0.85
         run = self.connect(1, dt=dt, caps=caps)
-        n0 = rng.choice([4999, 5000, 5001, 5200, 6000])
+        n0 = rng.choice([5000, 5001, 5200] if decisive else [4999, 5000, 5001, 5200, 6000])
         self.bulk(run, n0)
         ty = ALL if rng.random() < 0.5 else BITS["txnev"]
-        nfail = rng.choice([2, 9, 10, 11, 12, 13])
+        nfail = rng.choice([11, 12] if decisive else [2, 10, 11, 11, 12, 13])
         for k in range(nfail):
             self.tick(ah=0, ty=ty)
-            bad = rng.random() < 0.93
+            bad = decisive or rng.random() < 0.93
             for c in CATS + ["txnev", "usage"]:
                 self.ops.append({"op": "replycat", "cat": c,
                                  "out": {"kind": "fail", "f": "retry"} if (bad and c == "txnev") else {"kind": "ok"}})
@@ -424,6 +425,9 @@ class HistGen:
             self.drain(6, {"ok": 1})
         if rng.random() < 0.5:
             self.exit("ok")
+
+    def p_bulkfail(self):
+        self.p_bulk()
 
     def p_capacity(self):
         """C05: small negotiated limits, several periods per category with more offers than the limit,
@@ -575,13 +579,17 @@ Definition viol_of (c : case) : list (N * nat) := let '(ops, obs, cc) := c in mo
 (* the monitor on the MODEL's own outputs: must be empty (sanity of model vs monitor) *)
 Definition mviol_of (c : case) : list (N * nat) := let '(ops, _, cc) := c in monitor ops (model_steps ops) cc.
 Fixpoint number {A} (l : list A) (i : nat) : list (nat * A) := match l with [] => [] | x :: r => (i, x) :: number r (S i) end.
-Definition corr := Eval vm_compute in map diff_of cases.
-Definition viols := Eval vm_compute in
-  concat (map (fun ic => map (fun v => (fst ic, fst v, snd v)) (viol_of (snd ic))) (number cases 0)).
-Definition mviols := Eval vm_compute in
-  concat (map (fun ic => map (fun v => (fst ic, fst v, snd v)) (mviol_of (snd ic))) (number cases 0)).
-Print corr. Print viols. Print mviols.
 """
+
+EPI_PART = {"corr": """Definition corr := Eval vm_compute in map diff_of cases.
+Print corr.
+""", "viols": """Definition viols := Eval vm_compute in
+  concat (map (fun ic => map (fun v => (fst ic, fst v, snd v)) (viol_of (snd ic))) (number cases 0)).
+Print viols.
+""", "mviols": """Definition mviols := Eval vm_compute in
+  concat (map (fun ic => map (fun v => (fst ic, fst v, snd v)) (mviol_of (snd ic))) (number cases 0)).
+Print mviols.
+"""}
 
 
 def seg_lists(ops, steps):
@@ -607,7 +615,7 @@ def seg_lists(ops, steps):
     return "(" + " ++\n   ".join("(" + x + ")" for x in osegs) + ")", "(" + " ++\n   ".join("(" + x + ")" for x in ssegs) + ")"
 
 
-def cases_v(hists, obs):
+def cases_v(hists, obs, which=("corr", "viols", "mviols")):
     lines = [PRELUDE, "Definition cases : list case := ["]
     parts = []
     for h, o in zip(hists, obs):
@@ -617,6 +625,8 @@ def cases_v(hists, obs):
     lines.append(";\n".join(parts))
     lines.append("].")
     lines.append(EPILOGUE)
+    for w in which:
+        lines.append(EPI_PART[w])
     return "\n".join(lines)
 
 
@@ -628,30 +638,46 @@ def parse_triples(txt):
 
 def evaluate(name, hists, obs, shards=4, timeout=900):
     """Evaluate model + monitor in Coq on (history, observation) pairs.  Returns dict with
-    corr (list: 0 = agree, i+1 = first differing step), viols, mviols (lists of (history, code, step))."""
+    corr (list: 0 = agree, i+1 = first differing step), viols, mviols (lists of (history, code, step)).
+    A history with a bulk operation (thousands of events) gets coqc runs of its own, one per result."""
     n = len(hists)
-    shards = max(1, min(shards, (n + 19) // 20))
-    bounds = [(i * n // shards, (i + 1) * n // shards) for i in range(shards)]
+    heavy = [i for i, h in enumerate(hists) if any(o["op"] == "bulk" for o in h["ops"])]
+    light = [i for i in range(n) if i not in set(heavy)]
+    shards = max(1, min(shards, (len(light) + 19) // 20))
+    jobs = []          # (indices, which)
+    for k in range(shards):
+        idx = light[k * len(light) // shards:(k + 1) * len(light) // shards]
+        if idx:
+            jobs.append((idx, ("corr", "viols", "mviols")))
+    for i in heavy:
+        for w in ("corr", "viols", "mviols"):
+            jobs.append(([i], (w,)))
 
     def one(k):
-        lo, hi = bounds[k]
-        rc, out = vlib.coq_eval("%s_%d" % (name, k), cases_v(hists[lo:hi], obs[lo:hi]), timeout=timeout)
-        corr = vlib.parse_nat_list(vlib.parse_printed(out, "corr"))
-        viols = parse_triples(vlib.parse_printed(out, "viols"))
-        mviols = parse_triples(vlib.parse_printed(out, "mviols"))
-        if rc != 0 or corr is None or viols is None or mviols is None:
+        idx, which = jobs[k]
+        rc, out = vlib.coq_eval("%s_%d" % (name, k), cases_v([hists[i] for i in idx], [obs[i] for i in idx], which), timeout=timeout)
+        r = {}
+        if "corr" in which:
+            r["corr"] = vlib.parse_nat_list(vlib.parse_printed(out, "corr"))
+        for w in ("viols", "mviols"):
+            if w in which:
+                r[w] = parse_triples(vlib.parse_printed(out, w))
+        if rc != 0 or any(v is None for v in r.values()):
             return {"error": out[-4000:]}
-        return {"corr": corr, "viols": [(a + lo, b, c) for a, b, c in viols],
-                "mviols": [(a + lo, b, c) for a, b, c in mviols]}
+        return r
 
-    with ThreadPoolExecutor(max_workers=shards) as ex:
-        rs = list(ex.map(one, range(shards)))
-    res = {"corr": [], "viols": [], "mviols": []}
-    for r in rs:
+    with ThreadPoolExecutor(max_workers=12) as ex:
+        rs = list(ex.map(one, range(len(jobs))))
+    res = {"corr": [0] * n, "viols": [], "mviols": []}
+    for (idx, which), r in zip(jobs, rs):
         if "error" in r:
             return r
-        for k in res:
-            res[k] += r[k]
+        for a, c in enumerate(r.get("corr", [])):
+            res["corr"][idx[a]] = c
+        for w in ("viols", "mviols"):
+            res[w] += [(idx[a], b, c) for a, b, c in r.get(w, [])]
+    res["viols"].sort()
+    res["mviols"].sort()
     return res
 
 
